@@ -862,6 +862,8 @@ pub enum Node {
     RUnit(&'static RUnit),
     /// a bare nested container (no collection around it)
     Group(Box<CN>),
+    /// placeholder without locks (never locked, never built from a spec)
+    Group0,
 }
 
 pub enum NodeAcc<'g, F: Fam> {
@@ -907,6 +909,7 @@ unsafe impl Lockable for Node {
             Node::PDRetry(c) => c.get_ptrs(ptrs),
             Node::RUnit(u) => u.get_ptrs(ptrs),
             Node::Group(c) => c.get_ptrs(ptrs),
+            Node::Group0 => {}
         }
     }
     unsafe fn guard(&self) -> Self::Guard<'_> {
@@ -934,6 +937,7 @@ unsafe impl Lockable for Node {
             Node::PDRetry(c) => NodeAcc::PUnit(Box::new(c.guard())),
             Node::RUnit(u) => NodeAcc::Unit(u.guard()),
             Node::Group(c) => NodeAcc::Coll(Box::new(c.guard())),
+            Node::Group0 => unreachable!("happysim: placeholder node locked"),
         }
     }
     unsafe fn data_mut(&self) -> Self::DataMut<'_> {
@@ -961,6 +965,7 @@ unsafe impl Lockable for Node {
             Node::PDRetry(c) => NodeAcc::PUnit(Box::new(c.data_mut())),
             Node::RUnit(u) => NodeAcc::Unit(u.data_mut()),
             Node::Group(c) => NodeAcc::Coll(Box::new(c.data_mut())),
+            Node::Group0 => unreachable!("happysim: placeholder node locked"),
         }
     }
 }
@@ -1000,6 +1005,7 @@ unsafe impl Sharable for Node {
             Node::PDRetry(c) => NodeAcc::PUnit(Box::new(c.read_guard())),
             Node::RUnit(u) => NodeAcc::Unit(u.read_guard()),
             Node::Group(c) => NodeAcc::Coll(Box::new(c.read_guard())),
+            Node::Group0 => unreachable!("happysim: placeholder node locked"),
         }
     }
     unsafe fn data_ref(&self) -> Self::DataRef<'_> {
@@ -1027,6 +1033,7 @@ unsafe impl Sharable for Node {
             Node::PDRetry(c) => NodeAcc::PUnit(Box::new(c.data_ref())),
             Node::RUnit(u) => NodeAcc::Unit(u.data_ref()),
             Node::Group(c) => NodeAcc::Coll(Box::new(c.data_ref())),
+            Node::Group0 => unreachable!("happysim: placeholder node locked"),
         }
     }
 }
